@@ -50,6 +50,14 @@ else
     emit "$R/child.stdout"
     emit "$R/child.stderr" >&2
 fi
+# a command that is done with its output before it is done: closes stdout and stderr, keeps
+# running for a while (a planned real delay; no oracle reads the time), then ends with its status
+linger=$(cat "$R/child.linger" 2>/dev/null)
+if [ -n "$linger" ] && [ "$linger" != 0 ]; then
+    exec 1>&- 2>&-
+    echo "- G LINGER pid=$$ ms=$linger" >> "$R/events.log"
+    sleep "$(printf '%d.%03d' $((linger / 1000)) $((linger % 1000)))"
+fi
 echo "- G EXIT pid=$$ code=$code" >> "$R/events.log"
 if [ "${code:-0}" -ge 1000 ]; then
     exec 1>&- 2>&-
